@@ -958,7 +958,11 @@ class PDFDocument:
                         return v
             raise PDFKeyError((cat, key))
 
-        return lookup(d0)
+        value = lookup(d0)
+        if value is None:
+            # the key lies outside the Limits of the root node
+            raise PDFKeyError((cat, key))
+        return value
 
     def get_dest(self, name: Union[str, bytes]) -> Any:
         try:
